@@ -1,7 +1,7 @@
 """C14 — Packets and payloads behave as values."""
 from cmpverif import facts, paths
 from cmpverif.build import Broken
-from cmpverif.facts import callee_name, called_names, canon, const_value, depends, strip, strip_all_casts, walk, reads
+from cmpverif.facts import callee_name, called_names, lvalue_root, canon, const_value, depends, strip, strip_all_casts, walk, reads
 from cmpverif.report import Result
 
 LEVEL = "other"
@@ -362,6 +362,26 @@ def run(ctx):
         cls = f.params[0]["t"]["s"].replace("const ", "").replace(" &", "")
         okk = all((cls + "::" + g) in cn for g in ("getType", "getLength", "getRawPayload"))
         res.check(okk, "C14-R3", "operator==(%s):coverage" % cls, f.loc, "type, length and bytes compared", "operator==(%s) does not read type, length and bytes" % cls)
+        # ... over all of them: a byte loop starts at index 0, runs while the index is below the length and steps by +1 (an index that steps
+        # the other way leaves after the first byte: payloads that differ behind byte 0 compare equal)
+        for g3 in [f] + [h for h in fb.reachable_from([f]).values() if h.key != f.key and h.body is not None and ("(anon-ns)" in h.name or (h.rec is None and h.raw.get("static")))]:
+            for lp in [x for x in g3.nodes() if x.get("k") == "for"]:
+                cond = lp.get("cond")
+                if not isinstance(cond, dict) or not any((cls + "::getLength") == callee_name(y) for y in walk(facts.expand(g3, cond)) if y.get("k") == "call"):
+                    continue
+                c0 = strip(cond)
+                ivar = strip_all_casts(c0.get("l") or {}).get("decl") if c0.get("k") == "bin" and c0.get("op") in ("<", "!=") else None
+                inc = strip_all_casts(lp.get("inc") or {})
+                step_ok = (inc.get("k") == "un" and inc.get("op") in ("pre++", "post++") and strip_all_casts(inc["e"]).get("decl") == ivar) or \
+                    (inc.get("k") == "cassign" and inc.get("op") == "+" and const_value(inc.get("r")) == 1 and strip_all_casts(inc["l"]).get("decl") == ivar)
+                init = lp.get("init") or {}
+                init_ok = init.get("k") == "decl" and any(v.get("decl") == ivar and const_value(v.get("init")) == 0 for v in init.get("vars", []))
+                body_writes = any(lvalue_root(y.get("l") or y.get("e") or {}) == ivar for y in walk(lp.get("body") or {})
+                                  if y.get("k") in ("assign", "cassign") or (y.get("k") == "un" and y.get("op") in ("pre++", "post++", "pre--", "post--")))
+                res.check(ivar is not None and step_ok and init_ok and not body_writes, "C14-R3", "operator==(%s):every-byte" % cls, lp.get("loc") or g3.loc,
+                          "the byte loop visits every index 0 .. length-1",
+                          "the byte loop of operator==(%s) does not visit every index from 0 to length-1 (`%s`; `%s`): payloads that differ in a byte it skips "
+                          "compare equal" % (cls, canon(cond)[:50], canon(lp.get("inc"))[:30] if lp.get("inc") else "no step"))
         # ... read faithfully: the three getters the comparison goes through hand out the member itself on every path (a getType() that folds
         # several stored types into one makes payloads equal that differ in what their other accessors report)
         for g, want in (("getType", "member"), ("getLength", "size"), ("getRawPayload", "data")):
